@@ -57,6 +57,8 @@ def cases(tier, seed):
                     base = {'M': M, 'N': N, 'RA': RA, 'dt': dt, 'fam': fam, 's': salt}
                     for op in ('t', 'neg', 'full', 'A+s', 'A-s', 's-A', 'A*s', 's*A', 'A/s', 'A*0'):
                         yield dict(base, op=op)
+                    for op in ('A+s', 's+A', 'A-s', 's-A', 'A*s', 's*A', 'A/s'):
+                        yield dict(base, op=op, sk='inexact')       # 0.1: not representable in float32
                     for nb in range(0, 4):
                         yield dict(base, op='A@dense', nb=nb)
                     for RB in rB:
@@ -98,7 +100,7 @@ def run_case(c):
     bA = ref.absbound(cA)
     key = '%s|%s' % (op, space.skey(sA))
     nt = space.nontrivial(sA)
-    site = 'ttm.' + op.replace('@', 'matmul_').replace('+', 'add').replace('-', 'sub').replace('*', 'mul').replace('/', 'div')
+    site = 'ttm.' + op.replace('@', 'matmul_').replace('+', 'add').replace('-', 'sub').replace('*', 'mul').replace('/', 'div') + ('.inexact_scalar' if c.get('sk') == 'inexact' else '')
     R_expect = None
     ttm_res = True
     if op == 't':
@@ -119,13 +121,17 @@ def run_case(c):
         elif not (torch.equal(ref.up(f), dA) if exact else ref.close(ref.up(f), dA, 1e3 * ref.unit_roundoff(dtype) * bA)):
             viol.append(V('ttm.full.value', 'max diff %.3e' % ref.maxdiff(ref.up(f), dA)))
         return Outcome(key, nt, 'full', violations=viol)
-    elif op in ('A+s', 'A-s', 's-A', 'A*s', 's*A', 'A/s', 'A*0'):
+    elif op in ('A+s', 's+A', 'A-s', 's-A', 'A*s', 's*A', 'A/s', 'A*0'):
         s = 2.0
         if op == 'A*0':
             s = 0
-        fn = {'A+s': lambda: A + s, 'A-s': lambda: A - s, 's-A': lambda: s - A, 'A*s': lambda: A * s, 's*A': lambda: s * A,
+        if c.get('sk') == 'inexact':
+            s = 0.1
+            exact = False
+            key += '|inexact'
+        fn = {'A+s': lambda: A + s, 's+A': lambda: s + A, 'A-s': lambda: A - s, 's-A': lambda: s - A, 'A*s': lambda: A * s, 's*A': lambda: s * A,
               'A/s': lambda: A / s, 'A*0': lambda: A * s}[op]
-        want = {'A+s': lambda: dA + s, 'A-s': lambda: dA - s, 's-A': lambda: s - dA, 'A*s': lambda: dA * s, 's*A': lambda: s * dA,
+        want = {'A+s': lambda: dA + s, 's+A': lambda: s + dA, 'A-s': lambda: dA - s, 's-A': lambda: s - dA, 'A*s': lambda: dA * s, 's*A': lambda: s * dA,
                 'A/s': lambda: dA / s, 'A*0': lambda: dA * 0}[op]()
         bound = 2 * bA + 2
     elif op == 'A@dense':
